@@ -181,5 +181,12 @@ def parsesOnOKTables (s : PStore) : List PCall → Prop
   | .parse m text :: cs => envOK s.env = true ∧ parsesOnOKTables (s.step (.parse m text)) cs
   | c :: cs => parsesOnOKTables (s.step c) cs
 
+/-- No parse of the history is rejected (a condition on the texts, given the tables they meet). -/
+def noRejected (s : PStore) : List PCall → Prop
+  | [] => True
+  | .parse m text :: cs =>
+    (∃ p, parseString m s.env text = .ok p) ∧ noRejected (s.step (.parse m text)) cs
+  | c :: cs => noRejected (s.step c) cs
+
 end PStore
 end XotModel
